@@ -281,7 +281,13 @@ where
             months: c.k,
             inner: c.extra.to_chrono(),
         };
-        let want2 = if sign == 1 { want + c.extra.total_ns() / NS_PER[c.u] } else { want - c.extra.total_ns() / NS_PER[c.u] };
+        // the combined result must stay inside 1700..2200 as well (domain, DESIGN 5.8)
+        let want2_wide = if sign == 1 { want as i128 + (c.extra.total_ns() / NS_PER[c.u]) as i128 } else { want as i128 - (c.extra.total_ns() / NS_PER[c.u]) as i128 };
+        let lim = |secs: i64| secs as i128 * (1_000_000_000 / NS_PER[c.u]) as i128;
+        if want2_wide < lim(-8_520_336_000) || want2_wide > lim(7_258_118_400) {
+            continue;
+        }
+        let want2 = want2_wide as i64;
         let got2 = if sign == 1 { t + td2 } else { t - td2 };
         if got2.0 != want2 {
             return fail("months+duration", format!("t {} ({} months, {:?}) = {}, expected {}", if sign == 1 { "+" } else { "-" }, c.k, c.extra, got2.0, want2));
